@@ -73,7 +73,13 @@ fuzz_target!(|data: &[u8]| {
     }
     if let Some(p) = &pa {
         let names: Vec<String> = p.parameters().map(str::to_string).collect();
-        let values: Vec<&str> = u.split(['/', '\n']).filter(|s| !s.is_empty()).collect();
+        let mut unique = names.clone();
+        unique.sort();
+        unique.dedup();
+        assert!(unique.len() == names.len(), "pattern {:?} parses with a repeated parameter name: {:?}", a, names);
+        // values: the parts of the third text; separated by new lines when it has any (so that a value may contain '/')
+        let seps: &[char] = if u.contains('\n') { &['\n'] } else { &['/'] };
+        let values: Vec<&str> = u.split(seps).filter(|s| !s.is_empty()).collect();
         if in_round_trip_domain(&a) && (names.is_empty() || !values.is_empty()) {
             let m: HashMap<String, String> = names
                 .iter()
